@@ -92,6 +92,37 @@ def run(P, rep, tier):
     r176(P, u, rep)
     r177(P, rep)
     r179(P, rep)
+    r1711(P, rep)
+
+
+def r1711(P, rep):
+    """"it then has that definition's replacement list": the stored replacement list of a Macro is immutable after add_macro, and find_macro answers
+    from the table alone.  C09's rules on the sharing of replacement-list tokens (subst links only copies; add_hideset returns fresh copies) and on the
+    lookup (an identifier is answered by the table), re-used"""
+    from ..report import Report, reissue
+    from ..lib_c09 import NotConcrete
+    from . import c09
+    rep.rule('R17.11', 'the replacement list stored by a definition is never written afterwards (subst and add_hideset hand out copies of its tokens) and find_macro answers every identifier from the macro table alone, so a name has exactly the replacement list of its most recent definition and none after #undef (same obligations as C09 R09.7 add_hideset, R09.10 find_macro, R09.12 replacement-list tokens)', floor=6)
+    sub = Report('C09')
+    for r in ('R09.1', 'R09.2', 'R09.3', 'R09.4', 'R09.7', 'R09.10', 'R09.12', 'R09.13', 'R09.14', 'R09.15'):
+        sub.rule(r, '', 1)
+    u = P.unit('preprocess.c')
+
+    def part(name, f):
+        try:
+            return f()
+        except NotConcrete as e:
+            rep.undecided('R17.11', 'preprocess.c:%s:not-concrete' % name, 'the interpreter cannot follow a helper to a concrete result (%s)' % e)
+        except AnalysisBroken as e:
+            rep.undecided('R17.11', 'preprocess.c:%s:analysis' % name, 'analysis could not proceed: %s' % e)
+        return None
+    rs = part('subst', lambda: c09.r_subst(P, u, sub))
+    if rs is not None:
+        part('arg-sharing', lambda: c09.r_arg_sharing(P, u, sub, rs[0], rs[1]))
+    part('hideset', lambda: c09.r_hideset_prims(P, u, sub))
+    part('lookup', lambda: c09.r_lookup(P, u, sub))
+    reissue(rep, 'R17.11', sub, 'a macro name would not have the replacement list of its most recent definition: ',
+            keep=lambda o: ('replacement-list-token' in o['key'] or ':add_hideset:' in o['key'] or ':find_macro:' in o['key']))
 
 
 def _mk_map(ctx):
